@@ -163,3 +163,92 @@ theorem run_total_le (L : M.Lawful Inv) (c : GConn ε σ) (hI : c.verdict = .mor
     omega
 
 end Sys
+
+/-! ### two measures and a factor: `size` while the message is in progress, `fin` once it is complete -/
+
+namespace Sys
+variable {ε σ : Type} (M : Sys ε σ)
+
+/-- every step that does not complete the message lets `size` grow by at most `k` times the bytes consumed; the step
+    that completes it leaves a state whose `fin` is at most the old `size` plus `k` times the bytes consumed plus
+    `slack` of the final state -/
+def GrowsK (k : Nat) (size fin slack : σ → Nat) : Prop :=
+  ∀ s b i s' c, M.step s b = .ok i s' c →
+    (i ≠ .completeWhole → size s' ≤ size s + k * c) ∧ (i = .completeWhole → fin s' ≤ size s + k * c + slack s')
+
+variable {M} {k : Nat} {size fin slack : σ → Nat}
+
+theorem loop_sizeK (G : M.GrowsK k size fin slack) {f : Nat} {s s' : σ} {rem : Bytes} {acc n : Nat} {st : Status}
+    (h : M.loop f s rem acc = some (.ok st s' n)) :
+    (st = .incomplete → size s' + k * acc ≤ size s + k * n) ∧
+    (st = .complete → fin s' + k * acc ≤ size s + k * n + slack s') := by
+  induction f generalizing s rem acc with
+  | zero => simp [loop] at h
+  | succ f ih =>
+    unfold loop at h
+    split at h
+    · simp at h
+    · rename_i s1 c1 hs
+      have g := (G _ _ _ _ _ hs).1 (by simp)
+      have := ih h
+      rw [Nat.mul_add] at this
+      exact ⟨fun e => by have := this.1 e; omega, fun e => by have := this.2 e; omega⟩
+    · rename_i s1 c1 hs
+      have g := (G _ _ _ _ _ hs).2 rfl
+      simp at h; obtain ⟨rfl, rfl, rfl⟩ := h
+      rw [Nat.mul_add]
+      exact ⟨by simp, fun _ => by omega⟩
+    · rename_i s1 c1 hs
+      have g := (G _ _ _ _ _ hs).1 (by simp)
+      simp at h; obtain ⟨rfl, rfl, rfl⟩ := h
+      rw [Nat.mul_add]
+      exact ⟨fun _ => by omega, by simp⟩
+
+theorem parse_sizeK (G : M.GrowsK k size fin slack) {s s' : σ} {raw : Bytes} {n : Nat} {st : Status}
+    (h : M.parse s raw = .ok st s' n) :
+    (st = .incomplete → size s' ≤ size s + k * n) ∧ (st = .complete → fin s' ≤ size s + k * n + slack s') := by
+  unfold parse at h
+  split at h
+  · rename_i r hr
+    subst h
+    have := loop_sizeK G hr
+    simp at this
+    exact this
+  · simp at h
+
+/-- over any list of deliveries to a connection that is waiting for input: until the message is complete (also when
+    the run has ended in an error, which leaves the state of the last successful call), `size` of the state is at most
+    its initial value plus `k` times the bytes consumed; once complete, `fin` is at most that plus `slack` -/
+theorem run_sizeK (G : M.GrowsK k size fin slack) (c : GConn ε σ) (hc : c.verdict = .more) (ds : List Bytes) :
+    ((M.run c ds).verdict ≠ .complete → size (M.run c ds).st + k * c.total ≤ size c.st + k * (M.run c ds).total) ∧
+    ((M.run c ds).verdict = .complete →
+      fin (M.run c ds).st + k * c.total ≤ size c.st + k * (M.run c ds).total + slack (M.run c ds).st) := by
+  induction ds generalizing c with
+  | nil => simp [run, hc]
+  | cons d ds ih =>
+    have hrun : M.run c (d :: ds) = M.run (M.deliver c d) ds := by simp [run]
+    rw [hrun]
+    unfold deliver
+    simp only [hc]
+    cases hp : M.parse c.st (c.pending ++ d) with
+    | fail e =>
+      simp only
+      rw [run_of_not_more (by simp)]
+      simp
+    | ok st s' n =>
+      have hps := parse_sizeK G hp
+      cases st with
+      | complete =>
+        simp only
+        rw [run_of_not_more (by simp)]
+        have := hps.2 rfl
+        simp only [Nat.mul_add]
+        exact ⟨by simp, fun _ => by omega⟩
+      | incomplete =>
+        simp only
+        have := hps.1 rfl
+        have h2 := ih { st := s', pending := (c.pending ++ d).drop n, total := c.total + n, verdict := .more } rfl
+        simp only [Nat.mul_add] at h2
+        exact ⟨fun e => by have := h2.1 e; omega, fun e => by have := h2.2 e; omega⟩
+
+end Sys
